@@ -216,4 +216,17 @@ CHECKS["C14"] = {
     "assumptions": ["runtime monitoring: the verdict covers only the executions this run produced", "hook H6: crate::vsync switches Mutex/RwLock/Once/atomics/lazy_static/yield_now to shuttle under --cfg sentinel_verif_sched; Arc stays std", "virtual clock (std atomics, invisible to the scheduler)"],
 }
 
+CHECKS["C15"] = {
+    "package": "sched", "bin": "c15", "flavor": "sched", "replay": "rerun",
+    "shards": {"quick": 8, "thorough": 16},
+    "distinct_from_extra": "distinct_schedules",
+    "level": "exploration",
+    "technique": "runtime monitoring under controlled scheduling (shuttle runtime switched in under --cfg sentinel_verif_sched): deadlock = every unfinished task blocked (scheduler verdict), panic in any task, and a sequential health probe of all five managers after join, over randomised and PCT(1..3) schedules of pairs/triples of manager calls running next to entries",
+    "rule": "scenarios = (a) for each of the 5 families all 28 unordered pairs of {load_rules A, load_rules B, load_rules_of_resource, append_rule, clear_rules, clear_rules_of_resource, get_*} on two threads plus a thread building/exiting two entries on the affected resource, rules preloaded; (b) the 28 circuit-breaker pairs again with a plain and with a 'querying' StateChangeListener (every callback calls get_rules, get_rules_of_resource, get_breakers_of_resource, flow::get_rules) while the entry thread completes with errors so that the breaker opens, probes and re-opens; (c) 20 cross-family pairs; (d) probes rejected by a flow rule (exit-hook rollback) racing with breaker removal, with and without listener; (e) 6 three-thread / two-step scenarios. 800 (quick) / 20000 (thorough) executions per scenario split over random and PCT depth 1-3; evaluations = executions, distinct_nontrivial = distinct schedules (hash of scheduling decisions) summed over scenarios",
+    "level_text": "No sampled schedule of any scenario deadlocks, panics (incl. unwrap on a poisoned lock) or leaves a manager that does not accept and report a freshly loaded rule; sampled, not exhaustive.",
+    "level_note": "Custom generators that call back into their own manager are not exercised (the generator runs under the manager's non-reentrant mutexes by design; see DESIGN §5 C15). The real-OS-thread confirmation run with gdb stack sampling described in the design was not built; the scheduler's verdict is conclusive on its own.",
+    "design_ref": "DESIGN.md §5 C15",
+    "assumptions": ["runtime monitoring: the verdict covers only the executions this run produced", "hook H6 (vsync facade) and H7 (BreakerBase::drop is a no-op while unwinding, schedulable build only)", "shuttle models Mutex/RwLock/Once/atomics/lazy_static; std::sync::Arc is used as is"],
+}
+
 NOT_APPLICABLE = {}
